@@ -96,6 +96,29 @@ def correspondence(ctx, violations, known_hits):
     r = dbgcommon.run_dbg_cases(ctx, cases, tags, violations, profiles, aux=AUX,
                                 note="model: writes outside [origin, xFE00) are refused and change nothing (C13_refuse); sums are formed without wrap (C13_no_wrap)")
     real = dbgcommon.cli_cross(ctx, specs, violations, limit=(30 if ctx.tier == "quick" else 600))
+    # offsets and addresses written as TEXT, beyond what a 16-bit pattern can encode: label+N / ^N / absolute N around
+    # 2^15, 2^16 and 2^31 in several radixes must be refused (or accepted) exactly as the grammar and the range rule say
+    sessions = []
+    tail_txt = "; registers; break list; exit"
+    bigs = [32766, 32767, 32768, 32769, 65531, 65532, 65533, 65534, 65535, 65536, 65537, 70000, 2147483647, 2147483648]
+    for orig in (0x3000, 0x0000, 0xFD00):
+        src = SRC[orig]
+        for n in bigs:
+            for sgn in ("+", "-"):
+                for sp in (str(n), "x%x" % n, "#%d" % n):
+                    for lab in ("start", "last", "mid"):
+                        for cmd in (["goto %s", "move %s x4242", "break add %s", "break remove %s"] if ctx.tier != "quick" or n in (32768, 65533, 65535, 65536) else ["goto %s", "move %s x4242"]):
+                            sessions.append(("label-offset-text", 0, src, [], "break add %s; " % ("x%X" % (orig + 1)) + (cmd % (lab + sgn + sp)) + tail_txt))
+                    sessions.append(("pc-offset-text", 0, src, [], "goto x%X; move ^%s%s x4242" % (orig + 2, sgn, sp) + tail_txt))
+                    sessions.append(("pc-offset-text", 0, src, [], "goto x%X; goto ^%s%s" % (orig + 2, sgn, sp) + tail_txt))
+            sessions.append(("absolute-text", 0, src, [], "goto %d" % n + tail_txt))
+            sessions.append(("absolute-text", 0, src, [], "move x%x x4242" % n + tail_txt))
+            sessions.append(("absolute-text", 0, src, [], "break add -%d" % n + tail_txt))
+    if ctx.tier == "quick":
+        random.Random(ctx.seed).shuffle(sessions)
+        sessions = sessions[:2500]
+    textual = dbgcommon.run_text_sessions(ctx, sessions, violations, aux=AUX,
+                                          note="offsets/addresses as text around 2^15, 2^16, 2^31")
     ctx.cleanup()
     return dbgcommon.coverage(r,
         "target addresses (quick: the boundary set {0, origin-1, origin, x7FFF, x8000, xFDFF, xFE00, xFFFF, ...} plus random; thorough: "
@@ -103,7 +126,7 @@ def correspondence(ctx, violations, known_hits):
         "PCs) x {goto, move, break add, break remove} at four origins; offsets at the signed-16-bit extremes from high PCs/labels "
         "(sums beyond 16 bits); the PC itself parked outside user space (by `eval jmp`) x offsets {0, +-1, +-2, +-x100} x all six commands; all eight registers x boundary values; inspection commands on arbitrary states; after each: "
         "`registers; break list; exit` and a full comparison of machine (65,536 words) and breakpoint list", profiles,
-        exhaustive=(ctx.tier != "quick"), exhaustive_over="all 65,536 goto/move targets at origin x3000 (thorough tier)", real_binary_without_hooks=real)
+        exhaustive=(ctx.tier != "quick"), exhaustive_over="all 65,536 goto/move targets at origin x3000 (thorough tier)", real_binary_without_hooks=real, textual_offsets=textual)
 
 
 def replay(ctx, payload):
